@@ -155,6 +155,7 @@ class Scheduler:
         self.threads = []
         self.current = None
         self.step = 0
+        self.ops_done = 0      # finished operations (progress marker of the watchdog)
         self.max_steps = max_steps
         self.abort = None
         self.deadlock = False
@@ -234,7 +235,7 @@ class Scheduler:
     def in_sim_thread(self):
         return _thread.get_ident() in self.idents
 
-    def run(self, join_timeout=120):
+    def run(self, join_timeout=120, hard_timeout=600):
         """Runs all threads to completion under the tape.  Returns None."""
         global ACTIVE
         if not self.threads:
@@ -255,7 +256,23 @@ class Scheduler:
             # idents are known only once the threads run; they park first
             self.current = self.threads[0]
             self.current.sem.release()
-            if not self.done_lock.acquire(True, join_timeout):
+            # progress-based watchdog: a run is given up only when neither the step
+            # counter nor the number of finished operations moved for join_timeout
+            # seconds (a loaded machine must not turn a long history into "no verdict"),
+            # or after hard_timeout seconds in all
+            import time as _time
+            t_end = _time.monotonic() + hard_timeout
+            mark = (self.step, self.ops_done)
+            finished = False
+            while True:
+                if self.done_lock.acquire(True, join_timeout):
+                    finished = True
+                    break
+                now = (self.step, self.ops_done)
+                if now == mark or _time.monotonic() > t_end:
+                    break
+                mark = now
+            if not finished:
                 self.abort = self.abort or 'harness: run did not finish in {}s'.format(join_timeout)
                 self.hung = True
                 for t in self.threads:
